@@ -232,21 +232,25 @@ def infer_dtype(values: Iterable[Any]) -> DataType:
     <object>
     """
     dtype: Optional[DataType] = None
+    saw_none = False
 
     for v in values:
-        if dtype is None:
-            # First element
-            k = infer_kind(v)
-            if k is None:
-                dtype = DataType(object, nullable=True)
-            else:
-                dtype = DataType(k, nullable=False)
+        if v is None:
+            # None never fixes the kind; it only makes the result nullable,
+            # wherever it occurs (so [None, 1] and [1, None] both infer <int?>)
+            saw_none = True
+        elif dtype is None:
+            # First non-None element fixes the starting kind
+            dtype = DataType(infer_kind(v), nullable=False)
         else:
             dtype = dtype.promote_with(v)
 
     # If all values were None or empty iterable
     if dtype is None:
         return DataType(object, nullable=True)
+
+    if saw_none:
+        dtype = dtype.promote_with(None)
 
     return dtype
 
